@@ -59,3 +59,23 @@ Theorem C19_all_handlers_from_source : forall h c tok line wok ready,
   run_generated h c tok line wok ready = Some (run_handler h c tok line wok ready).
 Proof. exact all_handlers_from_source. Qed.
 Print Assumptions C19_all_handlers_from_source.
+
+(* ---------- one increment of the model is one increment of the counter ----------
+   Gen/EntryMetrics.v is REGENERATED on every run from internal/metrics: IncLogins(loginType, outcome) is
+   the single statement remoteLogins.WithLabelValues(loginType, outcome).Inc() — label "method" fed by the
+   first argument, "outcome" by the second, increment 1, nothing cached in between — on the registered
+   counter remote_logins_total; the LoginType / OutcomeType constants have pairwise distinct values, so
+   identifying a label by the constant's NAME (as the model and the dispatch table do) is sound; and every
+   label the model uses is one of those constants. *)
+From AM Require Import Gen.EntryMetrics Model.EntryMetricsIR Proofs.EntryMetricsTie.
+Theorem C19_inc_logins_from_source : forall login_type outcome,
+  inc_effect gen_inc_logins gen_vectors [login_type; outcome]
+  = Some ("audito_maldito", "remote_logins_total", [("method", login_type); ("outcome", outcome)], 1).
+Proof. exact inc_logins_from_source. Qed.
+Print Assumptions C19_inc_logins_from_source.
+
+Theorem C19_label_names_determined_by_values :
+  (forall n1 n2 v, In (n1, v) login_type_values -> In (n2, v) login_type_values -> n1 = n2) /\
+  (forall n1 n2 v, In (n1, v) outcome_type_values -> In (n2, v) outcome_type_values -> n1 = n2).
+Proof. exact label_names_determined_by_values. Qed.
+Print Assumptions C19_label_names_determined_by_values.
